@@ -1,22 +1,22 @@
----- MODULE MC_C01_quick_c_poly_const ----
+---- MODULE MC_C05_quick_a_k1 ----
 EXTENDS CircuitSys
 c_Dom == <<3, 2>>
 c_KSet == {1, 2}
 c_MaxK == 8
-c_MaxL == 4
+c_MaxL == 5
 c_MaxIn == 2
-c_InKindSeq == <<"poly", "const", "clog">>
+c_InKindSeq == <<"poly">>
 c_InnerKinds == {"had", "kron", "sum"}
 c_MaxAr == 2
 c_FreeOrder == FALSE
-c_MaxOuts == 2
+c_MaxOuts == 1
 c_MaxBases == 1
-c_MaxOps == 0
-c_OpSet == {}
+c_MaxOps == 1
+c_OpSet == {"differentiate"}
 c_Scheme == 2
-c_OnlySD == FALSE
+c_OnlySD == TRUE
 c_PolyDeg == 2
-c_DiffK == {1}
+c_DiffK == {1, 2}
 c_MaxDeg == 2
 c_Invalid == FALSE
 c_MaxHist == 0
@@ -24,9 +24,9 @@ c_RunActs == {"eval", "update"}
 c_NVer == 2
 c_GradMod == 0
 c_QueryOn == FALSE
-c_J == 1
-c_EmitOps == {0}
-c_EmitMod == 30
+c_J == 3
+c_EmitOps == {1}
+c_EmitMod == 8
 c_EmitRes == 0
 c_EmitSmall == 3
 ====
